@@ -78,6 +78,9 @@ MAP = {
     "str_": [(I, r"Input<'src> for &'src str"), (I, r"SliceInput<'src> for &'src str")],
     "mapped_input": [(I, r"Input<'src> for MappedInput<T, S, I, F>")], "iter_input": [("src/stream.rs", r"for IterInput<I, S>")],
     "stream_input": [("src/stream.rs", r"ValueInput<'a> for Stream<I>")], "stream_boxed_input": [("src/stream.rs", r"ValueInput<'a> for Stream<I>"), ("src/stream.rs", r"pub fn boxed<'a>")],
+    "span_simple": [("src/span.rs", r"impl<T: Clone, C: Clone> Span for SimpleSpan<T, C>"), ("src/span.rs", r"fn to_end\(&self\)"), ("src/span.rs", r"pub fn into_range\(self\)"), ("src/span.rs", r"impl<T> From<Range<T>> for SimpleSpan<T>"), ("src/span.rs", r"impl<T> From<SimpleSpan<T, \(\)>> for Range<T>")],
+    "span_union": [("src/span.rs", r"fn union\(&self, other: Self\)")],
+    "span_range_tuple": [("src/span.rs", r"impl<C: Clone, S: Span<Context = \(\)>> Span for \(C, S\)"), ("src/span.rs", r"impl<T: Clone> Span for Range<T>")],
     "iter_input_empty_match": [("src/stream.rs", r"for IterInput<I, S>")], "span_wrappers": [(I, r"for MappedSpan<S, I, F>"), (I, r"Input<'src> for WithContext<S, I>")],
     "err_expected_found": [("src/error.rs", r"fn expected_found<E: IntoIterator<Item = L>>"), ("src/error.rs", r"LabelError<'a, I, L> for Rich<'a, I::Token, I::Span>"), ("src/error.rs", r"LabelError<'a, I, L> for Simple<'a, I::Token, I::Span>"), ("src/error.rs", r"LabelError<'a, I, L> for Cheap<I::Span>")],
     "err_rich_merge_expected_found": [("src/error.rs", r"fn merge_expected_found<E: IntoIterator<Item = L>>")],
